@@ -163,9 +163,179 @@ let cmd_ranges (args : string list) : string =
   | ["IM"; "as_set"; a] -> ob (print_clients print_set_ranges) (idattr_as_set (parse_clients parse_map_ranges a))
   | _ -> "err badcmd"
 
+
+(* ---------- printing of results ---------- *)
+let err_name = function
+  | EndOfBuffer -> "EndOfBuffer" | InvalidVarInt -> "InvalidVarInt" | UnexpectedValue -> "UnexpectedValue"
+  | NotEnoughMemory -> "NotEnoughMemory" | InvalidJSON -> "InvalidJSON" | Custom -> "Custom"
+let pres (f : 'a -> string) (r : 'a res) : string =
+  match r with
+  | Ok (v, rest) -> "ok " ^ f v ^ " rest=" ^ string_of_int (List.length rest)
+  | Err e -> "err " ^ err_name e
+  | Panic site -> "panic " ^ hex_of_n site
+  | Fuel -> "fuel"
+let fuel_for (bs : n list) = nat_of_int (List.length bs + 2)
+
+let rawhex (l : n list) : string =
+  let buf = Buffer.create 64 in
+  List.iter (fun b -> Buffer.add_string buf (Printf.sprintf "%02x" (int_of_n b))) l;
+  Buffer.contents buf
+
+(* canonical Any printing; maps sorted by key, later duplicate wins *)
+let rec print_any (a : any) : string =
+  match a with
+  | AUndefined -> "u" | ANull -> "n"
+  | ABool b -> if b then "T" else "F"
+  | AInt z -> "i" ^ str_of_z z
+  | AF32 bits -> "f" ^ hex_of_n bits
+  | AF64 bits -> "D" ^ hex_of_n bits
+  | ABigInt bits -> "g" ^ hex_of_n bits
+  | AString s -> "s" ^ rawhex s
+  | ABuffer b -> "x" ^ rawhex b
+  | AArray l -> "[" ^ String.concat "," (List.map print_any l) ^ "]"
+  | AMap l ->
+    let tbl = Hashtbl.create 8 in
+    List.iter (fun (k, v) -> Hashtbl.replace tbl (rawhex k) v) l;
+    let keys = List.sort_uniq compare (List.map (fun (k, _) -> rawhex k) l) in
+    "{" ^ String.concat "," (List.map (fun k -> k ^ ":" ^ print_any (Hashtbl.find tbl k)) keys) ^ "}"
+
+let print_id (i : id) = hex_of_n i.cl ^ ":" ^ hex_of_n i.ck
+let print_oid = function None -> "-" | Some i -> print_id i
+let print_scope = function
+  | SRoot n -> "R" ^ rawhex n | SNested i -> "N" ^ print_id i | SRelative i -> "I" ^ print_id i
+let print_tyref (t : tyref) : string =
+  match t with
+  | TArray -> "0" | TMap -> "1" | TText -> "2" | TXmlElement n -> "3:" ^ rawhex n | TXmlFragment -> "4"
+  | TXmlHook -> "5" | TXmlText -> "6" | TSubDoc -> "9"
+  | TWeak w -> "7:" ^ print_scope w.wl_start ^ (if w.wl_start_after then "a" else "b") ^ "/" ^ print_scope w.wl_end ^ (if w.wl_end_after then "a" else "b")
+  | TUndefined -> "f"
+let print_parent = function PNamed n -> "R" ^ rawhex n | PId i -> "N" ^ print_id i | PUnknown -> "?"
+let print_ucontent (c : ucontent) : string =
+  match c with
+  | UDeleted -> "x"
+  | UString u -> "u" ^ hex_of_n u
+  | UJson s -> "j" ^ rawhex s
+  | UBinary b -> "b" ^ rawhex b
+  | UEmbed j -> "e" ^ rawhex j
+  | UFormat (k, j) -> "f" ^ rawhex k ^ ":" ^ rawhex j
+  | UType t -> "t" ^ print_tyref t
+  | UAny a -> "a" ^ print_any a
+  | UDoc (g, o) -> "d" ^ rawhex g ^ ":" ^ print_any o
+let print_bcontent (c : bcontent) : string =
+  match c with
+  | BDeleted n -> "x" ^ hex_of_n n
+  | BJson l -> "j[" ^ String.concat "," (List.map rawhex l) ^ "]"
+  | BBinary b -> "b" ^ rawhex b
+  | BString s -> "s" ^ rawhex s
+  | BEmbed j -> "e" ^ rawhex j
+  | BFormat (k, j) -> "f" ^ rawhex k ^ ":" ^ rawhex j
+  | BType t -> "t" ^ print_tyref t
+  | BAny l -> "a[" ^ String.concat "," (List.map print_any l) ^ "]"
+  | BDoc (g, o) -> "d" ^ rawhex g ^ ":" ^ print_any o
+let print_block (b : block) : string =
+  match b with
+  | BSkip (i, n) -> "S" ^ print_id i ^ "+" ^ hex_of_n n
+  | BGC (i, n) -> "G" ^ print_id i ^ "+" ^ hex_of_n n
+  | BItem (i, o, ro, p, ps, c) ->
+    "I" ^ print_id i ^ "<" ^ print_oid o ^ ">" ^ print_oid ro ^ "^" ^ print_parent p ^
+    (match ps with Some k -> "/" ^ rawhex k | None -> "") ^ "=" ^ print_bcontent c
+let print_idset (s : ((n * ((n * n) * unit) list) list)) : string = print_clients print_set_ranges s
+let print_update (u : update) : string =
+  let cs = List.sort (fun (a, _) (b, _) -> compare (hex_of_n b |> String.length, hex_of_n b) (hex_of_n a |> String.length, hex_of_n a)) u.u_blocks in
+  "B{" ^ String.concat ";" (List.map (fun (c, bs) -> hex_of_n c ^ "[" ^ String.concat " " (List.map print_block bs) ^ "]") cs) ^ "}D{" ^ print_idset u.u_ds ^ "}"
+let print_sv (s : (n * n) list) : string =
+  let l = List.sort compare (List.map (fun (c, k) -> (String.length (hex_of_n c), hex_of_n c, hex_of_n k)) s) in
+  match l with [] -> "_" | _ -> String.concat "," (List.map (fun (_, c, k) -> c ^ ":" ^ k) l)
+
+(* ---------- document dump ---------- *)
+let print_seqkey ((p, sub) : (parent * n list option)) : string =
+  print_parent p ^ (match sub with Some k -> "/" ^ rawhex k | None -> "")
+let print_ditem (x : ditem) : string =
+  print_id x.d_op.oid ^ (if x.d_del then "~" else "") ^ "=" ^ print_ucontent x.d_op.ocont
+let idcmp (a : id) (b : id) = compare (String.length (hex_of_n a.cl), hex_of_n a.cl, String.length (hex_of_n a.ck), hex_of_n a.ck)
+    (String.length (hex_of_n b.cl), hex_of_n b.cl, String.length (hex_of_n b.ck), hex_of_n b.ck)
+let print_doc ((d, stash) : doc * xop list) : string =
+  let lists = List.filter (fun (_, l) -> l <> []) d.d_lists in
+  let ls = List.sort compare (List.map (fun (k, l) -> print_seqkey k ^ "=[" ^ String.concat "," (List.map print_ditem l) ^ "]") lists) in
+  let gc = List.sort idcmp d.d_gc in
+  let st = List.sort idcmp (List.map xid stash) in
+  String.concat ";" ls ^ " |G " ^ String.concat "," (List.map print_id gc) ^ " |W " ^ String.concat "," (List.map print_id st)
+
+let replicas : (string, replica) Hashtbl.t = Hashtbl.create 8
+let get_rep r = try Hashtbl.find replicas r with Not_found -> empty_replica
+
+let cmd_doc (args : string list) : string =
+  match args with
+  | ["new"; r] -> Hashtbl.replace replicas r empty_replica; "ok"
+  | ["copy"; r; src] -> Hashtbl.replace replicas r (get_rep src); "ok"
+  | ["apply"; r; hx] ->
+    let bs = bytes_of_hex hx in
+    (match decode_update_v1 (fuel_for bs) bs with
+     | Ok (u, _) -> Hashtbl.replace replicas r (replica_apply (get_rep r) u);
+       "ok units=" ^ string_of_int (List.length (units_of_update u))
+     | Err e -> "err " ^ err_name e
+     | Panic s -> "panic " ^ hex_of_n s
+     | Fuel -> "fuel")
+  | ["state"; r] ->
+    let rp = get_rep r in
+    let (d, stash) = replica_state rp in
+    "ok " ^ print_doc (d, stash) ^ " |P " ^ String.concat "," (List.map print_id (List.sort idcmp (pending_ds d rp.r_ds)))
+  | ["stateof"; r; ids] ->
+    let rp = get_rep r in
+    "ok " ^ print_doc (render (restrict_pool rp.r_pool (parse_clients parse_set_ranges ids)) rp.r_ds)
+  | ["ds"; r] -> "ok " ^ print_idset (get_rep r).r_ds
+  | _ -> "err badcmd"
+
+(* ---------- codecs ---------- *)
+let cmd_dec (args : string list) : string =
+  match args with
+  | ["varu32"; hx] -> pres hex_of_n (read_var_u32 (bytes_of_hex hx))
+  | ["varu64"; hx] -> pres hex_of_n (read_var_u64 (bytes_of_hex hx))
+  | ["vari64"; hx] -> pres str_of_z (read_var_i64 (bytes_of_hex hx))
+  | ["signed"; hx] -> pres (fun (z, neg) -> str_of_z z ^ (if neg then "-" else "+")) (read_signed (bytes_of_hex hx))
+  | ["buf"; hx] -> pres rawhex (read_buf (bytes_of_hex hx))
+  | ["any"; hx] -> let bs = bytes_of_hex hx in pres print_any (decode_any (fuel_for bs) bs)
+  | ["idset"; hx] -> let bs = bytes_of_hex hx in pres print_idset (decode_idset_v1 (fuel_for bs) bs)
+  | ["sv"; hx] -> let bs = bytes_of_hex hx in pres print_sv (decode_sv_v1 (fuel_for bs) bs)
+  | ["snapshot"; hx] -> let bs = bytes_of_hex hx in pres (fun (ds, s) -> print_idset ds ^ "@" ^ print_sv s) (decode_snapshot_v1 (fuel_for bs) bs)
+  | ["update"; hx] -> let bs = bytes_of_hex hx in pres print_update (decode_update_v1 (fuel_for bs) bs)
+  (* decode then re-encode with the model's encoder (clients in the order given on the wire) *)
+  | ["reenc_update"; hx] ->
+    let bs = bytes_of_hex hx in
+    (match decode_update_v1 (fuel_for bs) bs with
+     | Ok (u, _) -> (match encode_update_v1 u with Some out -> "ok " ^ hex_of_bytes out | None -> "panic encode")
+     | Err e -> "err " ^ err_name e | Panic s -> "panic " ^ hex_of_n s | Fuel -> "fuel")
+  | ["reenc_any"; hx] ->
+    let bs = bytes_of_hex hx in
+    (match decode_any (fuel_for bs) bs with
+     | Ok (a, _) -> (match encode_any a with Some out -> "ok " ^ hex_of_bytes out | None -> "panic encode")
+     | Err e -> "err " ^ err_name e | Panic s -> "panic " ^ hex_of_n s | Fuel -> "fuel")
+  | ["reenc_idset"; hx] ->
+    let bs = bytes_of_hex hx in
+    (match decode_idset_v1 (fuel_for bs) bs with
+     | Ok (a, _) -> "ok " ^ hex_of_bytes (encode_idset_v1 a)
+     | Err e -> "err " ^ err_name e | Panic s -> "panic " ^ hex_of_n s | Fuel -> "fuel")
+  | ["reenc_sv"; hx] ->
+    let bs = bytes_of_hex hx in
+    (match decode_sv_v1 (fuel_for bs) bs with
+     | Ok (a, _) -> "ok " ^ hex_of_bytes (encode_sv_v1 a)
+     | Err e -> "err " ^ err_name e | Panic s -> "panic " ^ hex_of_n s | Fuel -> "fuel")
+  | _ -> "err badcmd"
+
+let cmd_enc (args : string list) : string =
+  match args with
+  | ["varu32"; v] -> "ok " ^ hex_of_bytes (write_var_u32 (n_of_hex v))
+  | ["varu64"; v] -> "ok " ^ hex_of_bytes (write_var_u64 (n_of_hex v))
+  | ["vari64"; v] -> (match write_var_i64 (z_of_str v) with Some b -> "ok " ^ hex_of_bytes b | None -> "panic neg")
+  | ["buf"; hx] -> "ok " ^ hex_of_bytes (write_buf (bytes_of_hex hx))
+  | _ -> "err badcmd"
+
 let dispatch (line : string) : string =
   match String.split_on_char ' ' (String.trim line) with
   | "R" :: args -> cmd_ranges args
+  | "D" :: args -> cmd_doc args
+  | "DEC" :: args -> cmd_dec args
+  | "ENC" :: args -> cmd_enc args
   | ["PING"] -> "ok pong"
   | _ -> "err badcmd"
 
